@@ -5,7 +5,8 @@ One scenario per input (see TTV/Model/Content.lean `Input` / TTV/Drv/C16.lean fo
   (text cps)                                         text_content round trip
   (json dumped-cps src-cps)                          json_content (json itself is an oracle)
   (decode isText cs chunks whole codec-name)         iter_text/as_text vs decoding the joined bytes
-  (stream isFile data0 data1? pos0 size seek? buffer_now iters)   content_from_stream/file on an instrumented stream
+  (stream isFile data0 data1? pos0 size seek? buffer_now iters caps)   content_from_stream/file on an instrumented stream;
+                                                     caps = short-read plan: the k-th read of an evaluation returns at most caps[k] bytes
   (ctype type subtype ((name value)...))             ContentType.__repr__ -> _make_content_type
   (copy init ops)                                    _copy_content over a volatile source
 """
@@ -40,13 +41,22 @@ def exc_name(e):
 
 
 class Spy:
-    """instrumented binary stream: logs every seek and read"""
+    """instrumented binary stream (a plain object with read/seek, like a raw pipe or socket wrapper): logs every
+    seek and read; `caps` is a plan of short reads - the k-th read since `restart()` returns at most caps[k] bytes
+    although more may follow, as raw / unbuffered streams do"""
 
-    def __init__(self, inner, log):
-        self.inner, self.log = inner, log
+    def __init__(self, inner, log, caps=()):
+        self.inner, self.log, self.caps, self.k = inner, log, list(caps), 0
+
+    def restart(self):
+        self.k = 0
 
     def read(self, n=-1):
-        r = self.inner.read(n)
+        limit = n
+        if self.k < len(self.caps):
+            limit = self.caps[self.k] if n is None or n < 0 else min(n, self.caps[self.k])
+        self.k += 1
+        r = self.inner.read(limit)
         self.log.append(['read', n, len(r)])
         return r
 
@@ -78,7 +88,8 @@ class C16(Prop):
     assumptions = ['codecs incremental decoders other than ISO-8859-1/ASCII/UTF-8 (utf-16-le, utf-32-be, cp1252, shift_jis, euc_jp) are opaque: '
                    'their whole-string result is an oracle input and the decoder law is assumed, only checked differentially',
                    'json.dumps/json.loads are an assumed inverse pair (json_content is checked to be utf8(json.dumps(data)) with type application/json)',
-                   'file objects: the read/seek contract of io.BytesIO and of open(path, "rb") is modelled (TTV.Content.seek/read), not verified',
+                   'file objects: the read/seek contract of io.BytesIO and of open(path, "rb") is modelled (TTV.Content.seek/read), not verified; raw streams are '
+                   'modelled by a finite plan of per-read caps >= 1 (a read returns at least one byte while data remains), restarting with every evaluation',
                    'email.message header parsing is modelled by the quoted-string grammar parseCT for lower-case token type/subtype/parameter names; '
                    'inside finding class valueEncodedWord the model does not reproduce the RFC 2047 decoding (soft correspondence there)']
 
@@ -164,7 +175,7 @@ class C16(Prop):
             whole = None
         return ['decode', pieces, some(err), whole]
 
-    def impl_stream(self, is_file, data0, data1, pos0, size, seek, buffer_now, iters):
+    def impl_stream(self, is_file, data0, data1, pos0, size, seek, buffer_now, iters, caps):
         import testtools.content as tc
         log = []
         data0 = bytes(data0)
@@ -182,13 +193,13 @@ class C16(Prop):
                 def spy_open(p, mode='r', *a, **k):
                     assert p == path and mode == 'rb'
                     log.append('opened')
-                    return Spy(open(p, mode), log)
+                    return Spy(open(p, mode), log, caps)
                 tc.open = spy_open      # module-level name shadows the builtin inside testtools.content only
                 make = lambda: tc.content_from_file(path, **kw)
             else:
                 inner = io.BytesIO(data0)
                 inner.seek(pos0)
-                spy = Spy(inner, log)
+                spy = Spy(inner, log, caps)
                 make = lambda: tc.content_from_stream(spy, **kw)
             try:
                 c = make()
@@ -206,6 +217,8 @@ class C16(Prop):
                     spy.inner.seek(p)
             for _ in range(iters):
                 log.append('iter')
+                if not is_file:
+                    spy.restart()       # the plan restarts with every evaluation (a file is re-opened: a new Spy)
                 it = iter(c.iter_bytes())
                 while True:
                     try:
@@ -364,7 +377,10 @@ class C16(Prop):
         if rng.random() < 0.35:
             data1 = some([rng.randrange(256) for _ in range(rng.choice([n, n, max(0, n - 2), n + 3]))])
         pos0 = 0 if is_file or rng.random() < 0.6 else rng.randint(0, n + 1)
-        return ['stream', is_file, data0, data1, pos0, size, seek, rng.random() < 0.4, rng.choice([1, 1, 2, 3])]
+        caps = []
+        if rng.random() < 0.45:       # a raw stream: short reads before end of file
+            caps = [rng.choice([1, 1, 2, 3, max(1, size - 1), size, size + 1]) for _ in range(rng.choice([1, 1, 2, 3, 5]))]
+        return ['stream', is_file, data0, data1, pos0, size, seek, rng.random() < 0.4, rng.choice([1, 1, 2, 3]), caps]
 
     VALUE_ALPHA = ['a', 'b', 'Z', '0', ' ', '\t', '"', '\\', ';', ',', '=', '/', '?', '*', "'", '%', 'é', '\x00', '(', ')', '<', '>', '@', ':',
                    '[', ']', '\x7f', '\x80', '€', '\U0001F600', '.', '-', '_']
@@ -469,9 +485,12 @@ class C16(Prop):
                         for bn in (False, True):
                             for is_file in (False, True):
                                 seek = None if off is None else some([off, wh])
-                                yield ['stream', is_file, data, None, 0, size, seek, bn, 1]
+                                yield ['stream', is_file, data, None, 0, size, seek, bn, 1, []]
                                 if n and not is_file and wh == 1:
-                                    yield ['stream', False, data, some(data[::-1]), n // 2, size, seek, bn, 2]
+                                    yield ['stream', False, data, some(data[::-1]), n // 2, size, seek, bn, 2, []]
+                                if size > 1 and n > 1 and wh == 0:
+                                    for caps in ([1], [size - 1], [size, 1], [2, 1, size]):
+                                        yield ['stream', is_file, data, None, 0, size, seek, bn, 1 if is_file else 2, caps]
 
     # ------------------------------------------------------------------ evidence
     def nontrivial(self, inp, trace):
@@ -514,7 +533,7 @@ class C16(Prop):
             if not inp[1]:
                 f.append('decode:non-text-type')
         elif k == 'stream':
-            _, is_file, d0, d1, pos0, size, seek, bn, iters = inp
+            _, is_file, d0, d1, pos0, size, seek, bn, iters, caps = inp
             n = len(d0)
             f += ['stream:' + ('file' if is_file else 'bytesio'), 'stream:buffer_now=%s' % bn, 'stream:iters=%d' % iters,
                   'stream:size' + ('<len' if size < n else '=len' if size == n else '>len'),
@@ -529,6 +548,10 @@ class C16(Prop):
                 f.append('stream:target' + ('<0' if tgt < 0 else '=0' if tgt == 0 else '<eof' if tgt < n else '=eof' if tgt == n else '>eof'))
             if d1 is not None:
                 f.append('stream:data-replaced')
+            f.append('stream:short-read-plan=%s' % (len(caps) if len(caps) < 3 else '3+'))
+            reads = [e for e in trace[1] if isinstance(e, list) and e[0] == 'read']
+            if any(0 < e[2] < e[1] and j + 1 < len(reads) and reads[j + 1][2] > 0 for j, e in enumerate(reads)):
+                f.append('stream:short-read-before-eof')
             if any(isinstance(e, list) and e[0] == 'raised' for e in trace[1]):
                 f.append('stream:seek-raised')
             nch = sum(1 for e in trace[1] if isinstance(e, list) and e[0] == 'chunk')
@@ -561,17 +584,23 @@ class C16(Prop):
                 if i + 1 < len(chunks):
                     yield inp[:3] + [chunks[:i] + [chunks[i] + chunks[i + 1]] + chunks[i + 2:]] + inp[4:]
         elif k == 'stream':
-            _, is_file, d0, d1, pos0, size, seek, bn, iters = inp
+            _, is_file, d0, d1, pos0, size, seek, bn, iters, caps = inp
             if iters > 1:
-                yield ['stream', is_file, d0, d1, pos0, size, seek, bn, iters - 1]
+                yield ['stream', is_file, d0, d1, pos0, size, seek, bn, iters - 1, caps]
             if d1 is not None:
-                yield ['stream', is_file, d0, None, pos0, size, seek, bn, iters]
+                yield ['stream', is_file, d0, None, pos0, size, seek, bn, iters, caps]
             if d0:
-                yield ['stream', is_file, d0[:-1], d1, min(pos0, len(d0) - 1), size, seek, bn, iters]
+                yield ['stream', is_file, d0[:-1], d1, min(pos0, len(d0) - 1), size, seek, bn, iters, caps]
             if pos0:
-                yield ['stream', is_file, d0, d1, 0, size, seek, bn, iters]
+                yield ['stream', is_file, d0, d1, 0, size, seek, bn, iters, caps]
             if seek is not None:
-                yield ['stream', is_file, d0, d1, pos0, size, None, bn, iters]
+                yield ['stream', is_file, d0, d1, pos0, size, None, bn, iters, caps]
+            for j in range(len(caps)):
+                yield ['stream', is_file, d0, d1, pos0, size, seek, bn, iters, caps[:j] + caps[j + 1:]]
+            if is_file:
+                yield ['stream', False, d0, d1, pos0, size, seek, bn, iters, caps]
+            if size > 2:
+                yield ['stream', is_file, d0, d1, pos0, size - 1, seek, bn, iters, caps]
         elif k == 'ctype':
             ps = inp[3]
             for i in range(len(ps)):
